@@ -101,7 +101,28 @@ OBJECTS = {
 }
 
 
+_OWNED = {"scalars": {}, "arrays": {}}  # caller-owned coefficient objects of the current sequence: ONE Python object per value / array id
+
+
+def reset_owned():
+    _OWNED["arrays"].clear()
+
+
 def coef_value(c):
+    """The caller's coefficient object: equal scalars are the SAME float object in every call of the process, coefficient arrays are
+    built once per sequence and handed to every call by reference (a caller re-using its own mu / omega objects; arrays may have been
+    modified in place by a `cm` operation in between)."""
+    if c is None:
+        return None
+    if isinstance(c, str):
+        k = int(c[1:])
+        if k not in _OWNED["arrays"]:
+            _OWNED["arrays"][k] = coef_array(k)
+        return _OWNED["arrays"][k]
+    return _OWNED["scalars"].setdefault(float(c), float(c))
+
+
+def ctor_value(c):
     return coef_array(int(c[1:])) if isinstance(c, str) else c
 
 
@@ -116,10 +137,10 @@ class Objs:
         (dim, mass_coeff, diffusion_coeff); maxiter / tol / depth / smoother_iterations and the kind of coefficient are kept"""
         vc = variant_coef if variant else (lambda c: c)
         vd = (lambda n: 5 - n) if variant else (lambda n: n)
-        self.jacs = [d.Jacobi(maxiter=o["maxiter"], tol=o["tol"], dim=vd(o["dim"]), mass_coeff=coef_value(vc(o["mass"])),
-                              diffusion_coeff=coef_value(vc(o["diff"]))) for o in OBJECTS["jacs"]]
+        self.jacs = [d.Jacobi(maxiter=o["maxiter"], tol=o["tol"], dim=vd(o["dim"]), mass_coeff=ctor_value(vc(o["mass"])),
+                              diffusion_coeff=ctor_value(vc(o["diff"]))) for o in OBJECTS["jacs"]]
         self.mgs = [d.MG(depth=o["depth"], smoother_iterations=o["sm"], maxiter=o["maxiter"], dim=vd(o["dim"]),
-                         mass_coeff=coef_value(vc(o["mass"])), diffusion_coeff=coef_value(vc(o["diff"]))) for o in OBJECTS["mgs"]]
+                         mass_coeff=ctor_value(vc(o["mass"])), diffusion_coeff=ctor_value(vc(o["diff"]))) for o in OBJECTS["mgs"]]
         self.aas = [d.AndersonAcceleration(dimension=None, depth=o["depth"], restart=o["restart"]) for o in OBJECTS["aas"]]
         self._d = d
         self._ws = {}
@@ -162,6 +183,11 @@ def execute(d, objs, op):
         return call(objs.jacs[op["i"]], x.copy(), x[::-1].copy(), h=op["h"])
     if k == "ju":
         return call(objs.jacs[op["i"]].update_params, dim=op.get("dim"), mass_coeff=coef_value(op.get("mass")), diffusion_coeff=coef_value(op.get("diff")))
+    if k == "cm":
+        a = coef_value(op["coef"])
+        a *= 2.0  # the caller modifies ITS array in place; later calls receive the same object
+        a += 0.25
+        return None
     if k == "mc":
         x = data(op["data"])
         return call(objs.mgs[op["i"]], x.copy(), x[::-1].copy())
@@ -199,9 +225,10 @@ def execute(d, objs, op):
 
 
 def setting_part(op):
-    """Python transcription of `Op.settingPart` (DarsiaModel.Stateful)"""
+    """Python transcription of `Op.settingPart` (DarsiaModel.Stateful); a caller's in-place modification of its own coefficient array
+    (`cm`) is an argument of the later calls, so it is replayed in the reference as well"""
     k = op["op"]
-    if k in ("ju", "mu"):
+    if k in ("ju", "mu", "cm"):
         return [op]
     if k in ("h1", "sb") and op["solver"] != "d":
         diff = op["mu"] if k == "h1" else (op["ell"] if op.get("ell") is not None else 2 * op["mu"])
@@ -229,6 +256,7 @@ def fresh_result(ops):
     variant = False
     if isinstance(ops, dict):
         variant, ops = bool(ops.get("variant")), ops["ops"]
+    reset_owned()
     objs = Objs(d, with_ws=needs_ws(ops), variant=variant)
     r = None
     for op in ops:
@@ -362,6 +390,7 @@ def run_chunk(seqs):
     install_tracer(d)
     out = []
     for seq in seqs:
+        reset_owned()
         objs = Objs(d, with_ws=needs_ws(seq))
         del _TRACE["events"][:]
         row = []
@@ -448,7 +477,12 @@ def op_tok(op, n):
 
 
 def in_model(op):
-    return not (op["op"] == "tvd" and op["method"] != "heterogeneous bregman")
+    return not (op["op"] == "cm" or (op["op"] == "tvd" and op["method"] != "heterogeneous bregman"))
+
+
+def seq_in_model(seq):
+    """sequences with an in-place coefficient modification are outside the Lean model (array identity = content there)"""
+    return not any(o["op"] == "cm" for o in seq)
 
 
 def model_parallel(ctx, lines, nproc=10):
@@ -541,12 +575,14 @@ GROUPS = {
         dict(op="jc", i=0, h=1.0, data=6),
         dict(op="ju", i=0, diff=5.0),
         dict(op="ju", i=0, mass=2.0, dim=2),
+        dict(op="ju", i=0, dim=3),
         dict(op="h1", solver=["j", 0], mu=3.0, omega=1.0, data=1),
         dict(op="sb", solver=["j", 0], mu=0.25, omega=1.0, ell=None, iters=2, data=1),
     ],
     "mg-object": [
         dict(op="mc", i=0, data=0),
         dict(op="mu", i=0, diff=3.0),
+        dict(op="mu", i=0, dim=3),
         dict(op="mc", i=0, data=2),
         dict(op="mc", i=0, data=6),
         dict(op="h1", solver=["m", 0], mu=2.0, omega=1.0, data=0),
@@ -556,6 +592,7 @@ GROUPS = {
         dict(op="mc", i=1, data=1),
         dict(op="mu", i=1, mass="a1"),
         dict(op="mu", i=1, mass="a2", diff="a1"),
+        dict(op="cm", coef="a1"),
         dict(op="h1", solver=["m", 1], mu="a1", omega="a2", data=0),
         dict(op="h1", solver=["m", 1], mu="a2", omega="a0", data=0),
         dict(op="sb", solver=["m", 1], mu=0.25, omega="a1", ell="a2", iters=2, data=1),
@@ -596,9 +633,9 @@ def slow(op):
 
 
 def sequences(ctx):
-    """quick: all sequences of length <= 2 over the whole alphabet, a seeded sample of 250 triples without split-Bregman calls,
-    all sequences of length <= 3 inside every group of operations that share an object (groups with more than 4 operations: a seeded half).
-    thorough: all of length <= 3 over the whole alphabet without split-Bregman calls plus 2250 sampled triples with one such
+    """quick: all sequences of length <= 2 over the whole alphabet, a seeded sample of 120 triples without split-Bregman calls,
+    all sequences of length <= 3 inside every group of operations that share an object (groups with more than 4 operations: a seeded 30 %).
+    thorough: all of length <= 3 over the whole alphabet without split-Bregman calls plus 2120 sampled triples with one such
     (numba-compiling) call, all of
     length <= 4 inside every group (at most two such calls), distance objects on up to three successive pairs."""
     alphabet = [o for g in GROUPS.values() for o in g]
@@ -627,13 +664,13 @@ def sequences(ctx):
             emit(seq)
     else:
         fast = [o for o in alphabet if not slow(o)]
-        for _ in range(250):
+        for _ in range(120):
             emit([ctx.rng.choice(fast) for _ in range(3)])
     for name, g in GROUPS.items():
         for k in range(3, ctx.pick(3, 4) + 1):
             for seq in itertools.product(g, repeat=k):
                 if sum(map(slow, seq)) <= (1 if k == 3 and not ctx.big else 2):
-                    if ctx.big or len(g) <= 4 or ctx.rng.random() < 0.5:  # quick: every triple of the small groups, a seeded half of the large ones
+                    if ctx.big or len(g) <= 4 or ctx.rng.random() < 0.3:  # quick: every triple of the small groups, a seeded half of the large ones
                         emit(seq)
     for seq in ws_sequences(ctx.pick(2, 3)):
         emit(seq)
@@ -733,17 +770,22 @@ def _run(ctx, d, zyg):
     keys = {}
     for seq in seqs:
         for n, op in enumerate(seq):
-            if op["op"] in ("ju", "mu"):
+            if op["op"] in ("ju", "mu", "cm"):
                 continue
             ref_ops = [s for o in seq[:n] for s in setting_part(o)] + [op]
             keys.setdefault(json.dumps(ref_ops, sort_keys=True), ref_ops)
     def explicit_regulariser(o):
         return o["op"] in ("h1", "sb") and o["solver"] != "d"
 
+    def variant_ops(seq, n):
+        """the call alone (plus the caller's earlier in-place modifications of its coefficient arrays, which are arguments of the call)"""
+        return [o for o in seq[:n] if o["op"] == "cm"] + [seq[n]]
+
     for seq in seqs:
-        for op in seq:
+        for n, op in enumerate(seq):
             if explicit_regulariser(op):
-                keys.setdefault("variant:" + json.dumps(op, sort_keys=True), {"variant": True, "ops": [op]})
+                vo = variant_ops(seq, n)
+                keys.setdefault("variant:" + json.dumps(vo, sort_keys=True), {"variant": True, "ops": vo})
     klist = list(keys)
     zyg.send(("fresh", [keys[k] for k in klist]))
     ref = dict(zip(klist, zyg.recv()))
@@ -753,7 +795,7 @@ def _run(ctx, d, zyg):
     # real fresh interpreters for a sample of final calls
     finals = []
     for seq in seqs:
-        if seq[-1]["op"] not in ("ju", "mu"):
+        if seq[-1]["op"] not in ("ju", "mu", "cm"):
             k = json.dumps([s for o in seq[:-1] for s in setting_part(o)] + [seq[-1]], sort_keys=True)
             if k not in finals:
                 finals.append(k)
@@ -791,7 +833,7 @@ def _run(ctx, d, zyg):
     # ---- guard: an operation of the alphabet that raises when issued FIRST in a fresh process tests nothing
     # (in-sequence and reference would both be the same exception) - report it instead of counting it as passing ----
     for seq in seqs:
-        if len(seq) == 1 and seq[0]["op"] not in ("ju", "mu"):
+        if len(seq) == 1 and seq[0]["op"] not in ("ju", "mu", "cm"):
             v = ref.get(json.dumps(seq, sort_keys=True), "")
             if v.startswith("!") and not seq[0].get("expect_raise"):
                 ctx.fail(signature(seq[0], "call").replace(":depends-on-earlier-call", "") + f":raises-in-a-fresh-process({v[1:]})",
@@ -828,7 +870,7 @@ def _run(ctx, d, zyg):
     for si, (seq, res) in enumerate(zip(seqs, results)):
         flags = []
         for n, (op, r) in enumerate(zip(seq, res)):
-            if op["op"] in ("ju", "mu"):
+            if op["op"] in ("ju", "mu", "cm"):
                 flags.append("eq")
                 continue
             ref_ops = [s for o in seq[:n] for s in setting_part(o)] + [op]
@@ -842,13 +884,13 @@ def _run(ctx, d, zyg):
             if explicit_regulariser(op):
                 # theorem regulariser_stateless: equal to the call issued first in a fresh process on a solver object that was
                 # constructed with other dim / mass_coeff / diffusion_coeff (all three are overwritten by the call)
-                wantv = ref["variant:" + json.dumps(op, sort_keys=True)]
+                wantv = ref["variant:" + json.dumps(variant_ops(seq, n), sort_keys=True)]
                 n_cmp += 1
                 if r != wantv and r == want:
                     ctx.fail(signature(op, "solver-constructor-parameters"),
                              f"call {n} returned {r}; the same call issued first in a fresh process with a solver object constructed with other dim / mass_coeff / "
                              f"diffusion_coeff (which the call overwrites) returns {wantv}",
-                             {"sequence": seq, "call": n, "in_sequence": r, "fresh_process": wantv, "reference_ops": {"variant": True, "ops": [op]}})
+                             {"sequence": seq, "call": n, "in_sequence": r, "fresh_process": wantv, "reference_ops": {"variant": True, "ops": variant_ops(seq, n)}})
         impl_eq.append(flags)
     ctx.cov["compared_calls"] = n_cmp
 
@@ -857,7 +899,7 @@ def _run(ctx, d, zyg):
     metavals = []
     metatraces = []
     for si2, (seq, flags, res) in enumerate(zip(seqs, impl_eq, results)):
-        if any(in_model(o) for o in seq) and (len(seq) <= 2 or si2 % ctx.pick(3, 5) == 0):
+        if seq_in_model(seq) and any(in_model(o) for o in seq) and (len(seq) <= 2 or si2 % ctx.pick(4, 5) == 0):
             lines.append(model_line(seq))
             meta.append((seq, [f for o, f in zip(seq, flags) if in_model(o)], [r for o, r in zip(seq, res) if in_model(o)]))
             metavals.append([v for o, v in zip(seq, values[si2]) if in_model(o)])
@@ -937,8 +979,8 @@ def _run(ctx, d, zyg):
                                  "first_trace_difference": trace_bad})
         ctx.log(f"correspondence stateful-sequences: {ndiff} disagreements, e.g. {json.dumps(first[0])[:300]} impl={first[1]} model={first[2][:200]}")
 
-    ctx.cov["rule"] = ("sequences: quick = all of length <= 2 over the 41-operation alphabet + 250 sampled triples + all of length <= 3 inside each group; thorough = all of "
-                       "length <= 3 over the alphabet without split-Bregman calls + 2250 sampled triples with one such call + all of length <= 4 inside each "
+    ctx.cov["rule"] = ("sequences: quick = all of length <= 2 over the 44-operation alphabet + 120 sampled triples + all of length <= 3 inside each group; thorough = all of "
+                       "length <= 3 over the alphabet without split-Bregman calls + 2120 sampled triples with one such call + all of length <= 4 inside each "
                        "group sharing an object (default H1 solver, default split-Bregman solver, one Jacobi object, MG objects, Anderson objects); "
                        "both tiers: six distance objects (Newton/Bregman x direct-full/direct-pressure/amg-pressure) on 2 (quick) / 3 (thorough) successive pairs; EVERY call of every sequence is compared with "
                        "its fresh-process reference; distinct = sequence")
